@@ -184,9 +184,17 @@ def check(ctx):
                                   'state exactly once per iteration (%d refinements)' % len(rf))
                     return
                 ls = s.loops[kc[0][1][0]['loop']]
-                pre = ('pre', ls.id, c['var'])
+                pre = kc[0][0]['args'][2]
+                if not (isinstance(pre, tuple) and pre and pre[0] == 'pre' and pre[1] == ls.id):
+                    ctx.violation('R4.mpi_state_chain', fsite(d), 'the kernel is not handed the driver\'s local '
+                                  'state variable', {'state': T.pretty(pre)[:200]})
+                    return
                 w = '%s:%s' % (rf[0][0]['where'], base)
-                ck = ls.updates['chkpt']['next']
+                ad0 = [e for e, l in effs if e['kind'] == 'hcall' and e['name'] == 'hep::chkpt_with_rng::add']
+                cu = upd_by_pre(ls, ad0[0]['obj']) if ad0 else None
+                if cu is None:
+                    raise AnalysisBroken('checkpoint variable of the MPI driver not recognised')
+                ck = cu['next']
                 ad = [e for e, l in effs if e['kind'] == 'hcall' and e['name'] == 'hep::chkpt_with_rng::add']
                 if len(ad) != 1 or not (isinstance(ck, tuple) and ck[0] == 'hmut' and ck[1] == 'hep::chkpt_with_rng::add'):
                     raise AnalysisBroken('checkpoint after add not recognised')
@@ -216,7 +224,7 @@ def check(ctx):
                                   'chkpt.%s would compute from the result just added'
                                   % ('pdf()' if c['var'] == 'pdf' else 'channel_weights()'),
                                   {'got': [T.pretty(a)[:160] for a in got], 'want': [T.pretty(a)[:160] for a in want]})
-                u = ls.updates[c['var']]
+                u = upd_by_pre(ls, pre)
                 nxt = ('hcall', c['refine']) + tuple(got)
                 if u['next'] == nxt or (isinstance(u['next'], tuple) and u['next'][0] == 'ite' and nxt in u['next']):
                     ctx.holds('R4.mpi_state_chain', w, 'the refined state is what the next iteration samples with')
